@@ -2,6 +2,8 @@
 From Coq Require Import List Bool Arith Reals.
 Import ListNotations.
 From GS Require Import Num NumR Camera.
+From Coq Require Import ZArith.
+From GS Require Import NumZ.
 From GS.Proofs Require Import CameraP.
 
 (** Taking a picture succeeds for every geometry — on the axis, exactly opposite, at the camera's
@@ -64,6 +66,13 @@ Theorem C19_cone_sound_and_complete (cv cam other : vec3 R) (theta reach : R) :
         else if Rltb 0 d then (if Rle_dec (cos (theta + 1 / 1000000)) (dot3 cv r / d) then true else false)
         else true).
 Proof. apply detects_cone_R. Qed.
+
+(** Non-vacuity (integers; the trigonometric functions of this instance are constants, so only reach and the
+    entry format are exercised): the node within reach is listed with its identifier and position, the
+    camera's own node and the one out of reach are not. *)
+Example C19_example :
+  take_picture Z_ops (mkCam 10 90 0 0)%Z 0 [(0, 0, 0)%Z; (1, 0, 0)%Z; (100, 0, 0)%Z] = Some [(1, (1, 0, 0)%Z)].
+Proof. vm_compute. reflexivity. Qed.
 
 Print Assumptions C19_never_fails.
 Print Assumptions C19_clamp_in_domain.
